@@ -36,13 +36,29 @@ func c13PipelineDoc(g *zz.Gen, r *vfRand) map[string]interface{} {
 		httpKinds = []string{"ConnectControl", "TopicMapper", "MQTTClientAuth", "KafkaMQTT"}
 	}
 	n := r.PickInt(0, 1, 1, 2, 2, 3)
+	clean := r.Chance(2, 5)
+	if clean {
+		httpKinds = []string{"Proxy", "RateLimiter", "Validator", "RequestAdaptor", "ResponseAdaptor", "Mock", "CORSAdaptor",
+			"RequestBuilder", "ResponseBuilder", "HeaderToJSON", "CertExtractor", "MeshAdaptor"}
+		n = r.PickInt(1, 2, 2, 3)
+	}
 	var fs []interface{}
 	var names []string
 	var kinds []string
 	for i := 0; i < n; i++ {
 		k := httpKinds[r.Intn(len(httpKinds))]
-		d := g.GenDoc("filter", k)
-		if !r.Chance(1, 8) {
+		var d map[string]interface{}
+		if tp := zz.Templates[k]; clean && len(tp) > 0 {
+			// an unmodified valid template: the pipeline level (names, flow, references) is what varies
+			var raw interface{}
+			if err := yaml2.Unmarshal([]byte(tp[r.Intn(len(tp))]), &raw); err == nil {
+				d, _ = zz.CanonTree(raw).(map[string]interface{})
+			}
+		}
+		if d == nil {
+			d = g.GenDoc("filter", k)
+		}
+		if clean || !r.Chance(1, 8) {
 			d["name"] = fmt.Sprintf("f%d", i+1)
 		}
 		fs = append(fs, d)
@@ -53,32 +69,48 @@ func c13PipelineDoc(g *zz.Gen, r *vfRand) map[string]interface{} {
 	if r.Chance(1, 2) && n > 0 {
 		var flow []interface{}
 		m := r.Range(1, n+1)
+		// a name that is, or nearly is, a declared filter / the reserved word END
+		ref := func(exact string) string {
+			switch {
+			case r.Chance(1, 7):
+				return g.NearMiss(exact)
+			case r.Chance(1, 9):
+				return g.NearMiss("END")
+			case r.Chance(1, 30):
+				return r.PickStr("nosuch", "f9", "")
+			}
+			return exact
+		}
 		for i := 0; i < m; i++ {
 			idx := r.Intn(n)
-			node := map[string]interface{}{"filter": names[idx]}
-			if r.Chance(1, 10) {
-				node["filter"] = r.PickStr("END", "nosuch", "f9", "")
+			node := map[string]interface{}{"filter": ref(names[idx])}
+			if r.Chance(1, 12) {
+				node["filter"] = "END"
 			}
 			if r.Chance(1, 4) {
-				node["alias"] = r.PickStr("a", "b", names[idx])
+				// aliases: fresh, equal to its own / another filter's name, near END
+				node["alias"] = r.PickStr("a", "b", names[idx], names[r.Intn(n)], g.NearMiss("END"), "END")
 			}
 			if r.Chance(1, 3) {
 				j := map[string]interface{}{}
 				if k := filters.GetKind(kinds[idx]); k != nil && len(k.Results) > 0 && !r.Chance(1, 8) {
 					res := k.Results[r.Intn(len(k.Results))]
-					j[res] = r.PickStr("END", "END", names[r.Intn(n)], "a", "nosuch")
+					if r.Chance(1, 12) {
+						res = g.NearMiss(res)
+					}
+					j[res] = r.PickStr("END", "END", ref("END"), ref(names[r.Intn(n)]), "a", "nosuch")
 				} else {
 					j["bogusResult"] = "END"
 				}
 				node["jumpIf"] = j
 			}
 			if r.Chance(1, 6) {
-				node["namespace"] = r.PickStr("ns1", "DEFAULT")
+				node["namespace"] = r.PickStr("ns1", "DEFAULT", "default", " ")
 			}
 			flow = append(flow, node)
 		}
 		if r.Chance(1, 5) {
-			flow = append(flow, map[string]interface{}{"filter": "END"})
+			flow = append(flow, map[string]interface{}{"filter": ref("END")})
 		}
 		doc["flow"] = flow
 	}
@@ -99,6 +131,16 @@ func c13PipelineDoc(g *zz.Gen, r *vfRand) map[string]interface{} {
 			rs = append(rs, d)
 		}
 		doc["resilience"] = rs
+	}
+	if r.Chance(1, 8) {
+		// near-miss resilience policy names: the reference in a Proxy pool keeps its spelling, the policy does not
+		if rs, ok := doc["resilience"].([]interface{}); ok && len(rs) > 0 {
+			if pol, ok := rs[r.Intn(len(rs))].(map[string]interface{}); ok {
+				if nm, ok := pol["name"].(string); ok {
+					pol["name"] = g.NearMiss(nm)
+				}
+			}
+		}
 	}
 	if r.Chance(1, 6) {
 		g.Mutate(doc, reflect.TypeOf(&Spec{}), 0)
@@ -186,7 +228,7 @@ func c13ObservePipeline(in *zz.In, inst bool) *zz.Obs {
 		return obs
 	}
 	for i, rq := range in.Reqs {
-		ctx := zz.NewContext(rq)
+		ctx := zz.NewContextFor(in.Doc, rq)
 		if ctx == nil {
 			continue
 		}
@@ -223,6 +265,16 @@ func c13Gen(r *vfRand, i int, adv bool) *zz.In {
 		it := plan[(i+int(vfSeed()%1000)*131)%len(plan)]
 		in.Cat, in.Kind = it.Cat, it.Kind
 		in.Doc = g.GenAdvDoc(it)
+		in.Reqs = zz.DefaultReqs(g, in.Kind, in.Doc)
+		return in
+	}
+	if !adv && i%5 == 2 {
+		// collections with a single blank entry: every (collection leaf, variant) pair in rotation
+		plan := zz.BlankPlan()
+		k := i/5 + int(vfSeed()%1000)*53
+		it := plan[k%len(plan)]
+		in.Cat, in.Kind = it.Cat, it.Kind
+		in.Doc = g.GenBlankDoc(it, 1+(k/len(plan))%4)
 		in.Reqs = zz.DefaultReqs(g, in.Kind, in.Doc)
 		return in
 	}
